@@ -2,6 +2,8 @@
 # usage: validate_mutants.sh <out-file> <prop:k> ...   (validates sub-agent mutants in a scratch worktree, runs our checks on them)
 OUT=$1; shift
 WV=/tmp/wv
+WTP=${WTPREFIX:-/tmp/wt-}
+export PYTHONPATH_DEMO=$WV
 # run our checks from a frozen copy of /verif so that live edits do not disturb the validation
 SNAP=/tmp/vsnap
 rm -rf $SNAP; rsync -a --exclude .git --exclude .scratch --exclude replays /verif/ $SNAP/
@@ -10,16 +12,23 @@ git -C /repo worktree add -q --detach $WV HEAD || exit 1
 demo() { # prop k
   local p=$1 k=$2
   cd $WV
-  case $p in
-    C02|C18|C11|C12) timeout 600 /venv/bin/python _out/demo$k.py >/tmp/demo.log 2>&1;;
-    C10) cp _out/demo$k.py asimap/test/test_demo_$k.py; timeout 900 /venv/bin/python -m pytest -q -p no:cacheprovider --timeout=300 asimap/test/test_demo_$k.py >/tmp/demo.log 2>&1; rc=$?; rm -f asimap/test/test_demo_$k.py; return $rc;;
-    C15) timeout 900 /venv/bin/python -m pytest -q -p no:cacheprovider --timeout=900 -p asimap.test.conftest _out/demo$k.py >/tmp/demo.log 2>&1;;
-    *) if grep -q "def test_" _out/demo$k.py; then timeout 900 /venv/bin/python -m pytest -q -p no:cacheprovider --timeout=900 _out/demo$k.py >/tmp/demo.log 2>&1; else timeout 600 /venv/bin/python _out/demo$k.py >/tmp/demo.log 2>&1; fi;;
-  esac
+  export PYTHONPATH=$WV
+  if grep -q "def test_" _out/demo$k.py; then
+    if [ "$p" = "C10" ] && [ -z "$WTPREFIX" ]; then
+      cp _out/demo$k.py asimap/test/test_demo_$k.py; timeout 900 /venv/bin/python -m pytest -q -p no:cacheprovider --timeout=300 asimap/test/test_demo_$k.py >/tmp/demo.log 2>&1; rc=$?; rm -f asimap/test/test_demo_$k.py; return $rc
+    fi
+    if grep -q "asimap.test.conftest" _out/demo$k.py || [ "$p" = "C15" ]; then
+      timeout 900 /venv/bin/python -m pytest -q -p no:cacheprovider --timeout=900 -p asimap.test.conftest _out/demo$k.py >/tmp/demo.log 2>&1
+    else
+      timeout 900 /venv/bin/python -m pytest -q -p no:cacheprovider --timeout=900 _out/demo$k.py >/tmp/demo.log 2>&1
+    fi
+  else
+    timeout 600 /venv/bin/python _out/demo$k.py >/tmp/demo.log 2>&1
+  fi
 }
 for pk in "$@"; do
   p=${pk%%:*}; k=${pk##*:}
-  cd $WV && git checkout -q -- . && rm -rf _out && cp -r /tmp/wt-$p/_out _out
+  cd $WV && git checkout -q -- . && rm -rf _out && cp -r ${WTP}$p/_out _out
   echo "=== $p mutant$k" >> $OUT
   if ! git apply _out/mutant$k.diff 2>>$OUT; then echo "APPLY-FAILED" >> $OUT; continue; fi
   demo $p $k; echo "demo-with-mutant rc=$? ($(tail -1 /tmp/demo.log | cut -c1-100))" >> $OUT
